@@ -5,6 +5,7 @@ package main
 import (
 	"fmt"
 	"go/token"
+	"go/types"
 	"sort"
 	"strings"
 )
@@ -36,6 +37,7 @@ type Eff struct {
 	Event  *Event      // the direct event in the summarised function (call or primitive)
 	Via    *Eff        // the callee effect this one was instantiated from (nil if direct)
 	Sites  []token.Pos // call-site positions from the summarised function down to the primitive
+	Class  string      // for an instantiated scan of a parametric helper: what the helper does with the scanned family (delete / write / read)
 }
 
 // SiteKey identifies the primitive site together with the call sites leading to it.
@@ -155,6 +157,30 @@ func (p *Prog) classifyCall(f *Func, ev *Event) *Eff {
 	return nil
 }
 
+// classifyCallAll is classifyCall with keys computed by selecting helpers resolved: a store
+// operation whose key helper chooses between builders becomes one guarded effect per alternative.
+func (p *Prog) classifyCallAll(f *Func, ev *Event) []*Eff {
+	e := p.classifyCall(f, ev)
+	if e == nil {
+		return nil
+	}
+	e.Guards = FactSet{}
+	if e.Kind == "store" && e.Family == "?" && e.Key != nil && e.Key.Op != "range" {
+		if vs := p.keyVariants(e.Key, 0); len(vs) > 0 {
+			var out []*Eff
+			for _, v := range vs {
+				ne := *e
+				ne.Key = v.Key
+				ne.Family, ne.Builder = p.keyFamily(v.Key)
+				ne.Guards = v.Guards
+				out = append(out, &ne)
+			}
+			return out
+		}
+	}
+	return []*Eff{e}
+}
+
 // SummaryOf computes the effect summary of f (memoised, recursion-safe).
 func (p *Prog) SummaryOf(f *Func) *Summary {
 	if s, ok := p.summaryMemo[f]; ok {
@@ -253,13 +279,14 @@ func (p *Prog) SummaryOf(f *Func) *Summary {
 // the primitive itself, or the instantiated effects of a module callee.
 func (p *Prog) effectsOfEvent(f *Func, ev *Event) []*Eff {
 	ci := ev.CI
-	if e := p.classifyCall(f, ev); e != nil {
-		e.Must = true
-		e.Commit = true
-		e.Sites = []token.Pos{ev.Pos}
-		e.InLoop = ev.Loop != nil
-		e.Guards = FactSet{}
-		return []*Eff{e}
+	if es := p.classifyCallAll(f, ev); es != nil {
+		for _, e := range es {
+			e.Must = true
+			e.Commit = true
+			e.Sites = []token.Pos{ev.Pos}
+			e.InLoop = ev.Loop != nil
+		}
+		return es
 	}
 	g := ci.fn
 	if g == nil || !g.isHandWritten() || g.Body == nil {
@@ -272,6 +299,11 @@ func (p *Prog) effectsOfEvent(f *Func, ev *Event) []*Eff {
 	m := map[string]*Term{}
 	for i, a := range ci.args {
 		m[fmt.Sprintf("P%d", i)] = a
+		if i < len(g.Params) {
+			if pt, ok := types.Unalias(g.Params[i].Type()).(*types.Pointer); ok && namedStruct(pt.Elem()) != "" {
+				m[fmt.Sprintf("P%d", i)] = stripAddr(a)
+			}
+		}
 	}
 	if ci.recv != nil {
 		m["Precv"] = ci.recv
@@ -279,7 +311,26 @@ func (p *Prog) effectsOfEvent(f *Func, ev *Event) []*Eff {
 	var out []*Eff
 	for _, ce := range sum.Effs {
 		ne := instantiate(ce, m, g.Name, ev)
+		if ne == nil {
+			continue // refuted by the actual arguments
+		}
 		ne.InLoop = ce.InLoop || ev.Loop != nil
+		// a key the callee receives as a parameter (a prefix, a key function) resolves with the actual argument
+		if ne.Kind == "store" && ne.Family == "?" && ne.Key != nil && ne.Key.Op != "range" {
+			if vs := p.keyVariants(ne.Key, 0); len(vs) > 0 {
+				for _, v := range vs {
+					n2 := *ne
+					n2.Key = v.Key
+					n2.Family, n2.Builder = p.keyFamily(v.Key)
+					n2.Guards = ne.Guards.Clone()
+					for _, gf := range v.Guards {
+						n2.Guards.Add(gf)
+					}
+					out = append(out, &n2)
+				}
+				continue
+			}
+		}
 		// a dynamic call of a parameter that is now a known closure expands
 		if ne.Kind == "dyn" && len(ne.Args) > 0 && ne.Args[0].Is("func") {
 			if cl := p.FuncNamed(ne.Args[0].A[0].At); cl != nil && !p.pathsBusy[cl] {
@@ -290,6 +341,9 @@ func (p *Prog) effectsOfEvent(f *Func, ev *Event) []*Eff {
 				}
 				for _, ce2 := range cs.Effs {
 					n2 := instantiate(ce2, cm, cl.Name, ev)
+					if n2 == nil {
+						continue
+					}
 					n2.Chain = append(append([]string{}, ne.Chain...), n2.Chain...)
 					n2.Sites = append(append([]token.Pos{}, ne.Sites...), n2.Sites[1:]...)
 					n2.Must = n2.Must && ne.Must
@@ -325,12 +379,29 @@ func instantiate(ce *Eff, m map[string]*Term, callee string, ev *Event) *Eff {
 	for _, g := range ce.Guards {
 		for _, ng := range g.SubstAll(m) {
 			if ng.T.IsAt("#true") || ng.T.IsAt("#false") {
+				if ng.T.IsAt("#true") == ng.Neg {
+					return nil // the guard is false for these arguments
+				}
 				continue
+			}
+			// a guard over constants only, decided by the actual arguments
+			if isConstOnly(ng.T) {
+				switch decideFact(ng, FactSet{}) {
+				case 0:
+					return nil
+				case 1:
+					continue
+				}
 			}
 			ne.Guards.Add(ng)
 		}
 	}
 	return ne
+}
+
+// isConstOnly: a comparison between two constants.
+func isConstOnly(t *Term) bool {
+	return t != nil && t.Op == "==" && len(t.A) == 2 && isConstTerm(t.A[0]) && isConstTerm(t.A[1])
 }
 
 // EffectsMatching filters a summary.
